@@ -45,6 +45,7 @@ assert rc == 0, o
 try:
     for c in checks:
         rc, o = sh("./check %s --tier quick 2>&1" % c, cwd=VERIF, timeout=3600)
+        open(out + "/check-%s.log" % c, "w").write(o)
         v = [l for l in o.splitlines() if l.startswith("VIOLATION") or l.startswith("KNOWN-FINDING") or l.strip().startswith("key=")]
         chk[c + " quick"] = {"exit": rc, "lines": [x[:400] for x in v[:8]]}
         print(c, "exit", rc); print("\n".join(x[:300] for x in v[:6]))
